@@ -437,6 +437,12 @@ func runChannelVec(rep *Report, v *Vec) {
 	}
 	ctx, cancel := context.WithCancel(context.Background())
 	defer cancel()
+	if (v.V.Ready+v.V.Timeout+v.V.Cancel)%2 == 0 {
+		// the caller's context also has a deadline of its own, far beyond anything that happens here: it changes nothing
+		c2, cancel2 := context.WithDeadline(ctx, time.Now().Add(time.Hour))
+		defer cancel2()
+		ctx = c2
+	}
 	// the instants at which things really happened are measured, so that scheduling delays of the
 	// harness itself never turn into a verdict: the admissible outcomes are derived from the measured instants
 	var tReady, tCancel atomic.Int64 // unix nanos, 0 = never
@@ -481,7 +487,25 @@ func runChannelVec(rep *Report, v *Vec) {
 	}
 	e := &eventlogger.Event{Type: "t", Payload: "p"}
 	t0 := time.Now()
-	out, perr := cs.Process(ctx, e)
+	// the call is bounded by the sink's timeout and the context (a few units); a call that is still out 30 s later is the
+	// verdict (it is left behind: the harness does not wait for it)
+	type pres struct {
+		out *eventlogger.Event
+		err error
+	}
+	pc := make(chan pres, 1)
+	go func() { o, e2 := cs.Process(ctx, e); pc <- pres{o, e2} }()
+	var out *eventlogger.Event
+	var perr error
+	select {
+	case r := <-pc:
+		out, perr = r.out, r.err
+	case <-time.After(30 * time.Second):
+		rep.mm(Mismatch{What: "ChannelSink.Process returns by the shorter of its timeout and the context", Vector: v.V, Expected: fmt.Sprintf("back within %v", timeout), Observed: "still blocked after 30 s"})
+		close(stopRecv)
+		<-recvDone
+		return
+	}
 	el := time.Since(t0)
 	time.Sleep(15 * time.Millisecond)
 	close(stopRecv)
